@@ -885,6 +885,121 @@ async fn proxy_case(c: &Case, q: usize, b: usize) -> CaseOut {
     o
 }
 
+
+// ------------------------------------------------------------------ proxy: one upstream client shared by two downstream connections
+
+/// Two downstream connections are proxied through clones of ONE upstream `AsyncClient` (every downstream
+/// client numbers its requests from 1, so ids collide). Connection A has request `REQ_ID` in flight upstream;
+/// connection B forwards a request with the same id and a query of `q` bytes. Whatever the proxy does about
+/// it (fail B's connection, answer B itself, forward later): no binary message larger than the limit may reach
+/// either downstream peer, A's answer arrives unchanged, nothing panics.
+async fn proxy_shared_case(limit: usize, q: usize) -> CaseOut {
+    let mut o = CaseOut::default();
+    let c = Case { limit: Some(limit), size: frames::HEADER + q + 3, place: Place::Query, path: PathK::Proxy, repeat: 1 };
+    let (up_cli, up_srv, uctl) = memstream::pair();
+    let _keep_upstream_end = up_srv;
+    let slot = next_slot();
+    repe::verif_io::register_stream(slot, up_cli);
+    let upstream = match AsyncClient::connect(("127.254.77.1", slot)).await {
+        Ok(u) => u,
+        Err(e) => {
+            o.mach(format!("AsyncClient::connect over the seam failed: {e}"));
+            return o;
+        }
+    };
+    let mut peers = Vec::new();
+    let mut tasks = Vec::new();
+    for _ in 0..2 {
+        let (down_srv, down_cli, _dctl) = memstream::pair();
+        let ws_srv = rtt::WebSocketStream::from_raw_socket(down_srv, Role::Server, Some(unlimited_cfg())).await;
+        let peer: WebSocketStream<End> = WebSocketStream::from_raw_socket(down_cli, Role::Client, Some(unlimited_cfg())).await;
+        tasks.push(tokio::spawn(proxy_connection_with_limits(ws_srv, upstream.clone(), limits_for(Some(limit)))));
+        peers.push(peer);
+    }
+    let mut pb = peers.pop().unwrap();
+    let mut pa = peers.pop().unwrap();
+    // A: a request that stays in flight upstream
+    let req_a = Frame::request(REQ_ID, "/up", b"[1]", frames::FMT_JSON, false);
+    if let Err(e) = pa.send(WsMessage::Binary(req_a.to_bytes())).await {
+        o.mach(format!("cannot send through the proxy: {e}"));
+        return o;
+    }
+    let fwd = upstream_request(&uctl.a_to_b).await;
+    if fwd != req_a.to_bytes() {
+        o.mach(format!("proxy forwarded {} bytes upstream for A, expected the {}-byte request", fwd.len(), req_a.to_bytes().len()));
+        return o;
+    }
+    // B: the same id, long query
+    let query = mk_query(q);
+    let req_b = Frame::request(REQ_ID, &query, b"[2]", frames::FMT_JSON, false);
+    let _ = pb.send(WsMessage::Binary(req_b.to_bytes())).await;
+    memstream::settle().await;
+    // if the proxy forwarded B's request after all, the upstream answers it (small answer)
+    let fwd_b = uctl.a_to_b.take();
+    let b_forwarded = !fwd_b.is_empty();
+    // everything B's peer gets now (nothing, an answer made by the proxy, or the end of the connection)
+    let mut b_seen = 0;
+    loop {
+        match rx(&mut pb, &mut o).await {
+            Rx::Bin(_) => b_seen += 1,
+            _ => break,
+        }
+        if b_seen > 4 {
+            break;
+        }
+    }
+    // the upstream answers A (and B's request, if it was forwarded: same id, answered once more)
+    let resp = Frame::new(Hdr { version: 1, id: REQ_ID, query_format: 1, body_format: frames::FMT_JSON, ..Default::default() }, b"/up", b"\"a\"");
+    uctl.b_to_a.push(&resp.to_bytes());
+    match rx(&mut pa, &mut o).await {
+        Rx::Bin(m) if m == resp.to_bytes() => o.class = Some(Class::Delivered),
+        other => o.bad(&c, "small-altered", format!("connection A's answer (within the limit) did not arrive unchanged while connection B re-used its request id: {}", other.describe())),
+    }
+    if b_forwarded {
+        uctl.b_to_a.push(&resp.to_bytes());
+        loop {
+            match rx(&mut pb, &mut o).await {
+                Rx::Bin(_) => {}
+                _ => break,
+            }
+        }
+    }
+    check_wire(&mut o, &c);
+    drop(pa);
+    drop(pb);
+    for t in tasks {
+        if let Ok(Err(e)) = tokio::time::timeout(WAIT, t).await {
+            if e.is_panic() {
+                o.bad(&c, "server-task-panicked", format!("proxy task panicked: {e}"));
+            }
+        }
+    }
+    o
+}
+
+fn proxy_shared_cases(tier: Tier) -> Vec<(usize, usize)> {
+    let mut v = Vec::new();
+    for limit in [1024usize, 4096, tier.pick(65_536, 1 << 20)] {
+        for q in [8usize, limit - 200, limit - 122, limit - 121, limit - 100, limit - 52, limit - 51, limit - 48, limit, 2 * limit] {
+            v.push((limit, q));
+        }
+    }
+    v
+}
+
+fn run_proxy_shared(limit: usize, q: usize) -> CaseOut {
+    let r = std::panic::catch_unwind(std::panic::AssertUnwindSafe(|| memstream::run_paused(proxy_shared_case(limit, q))));
+    match r {
+        Ok(o) => o,
+        Err(_) => {
+            let mut o = CaseOut::default();
+            let c = Case { limit: Some(limit), size: frames::HEADER + q + 3, place: Place::Query, path: PathK::Proxy, repeat: 1 };
+            o.bad(&c, "panic", "panic while executing the shared-upstream proxy case".into());
+            o
+        }
+    }
+}
+
 // ------------------------------------------------------------------ client paths
 
 async fn client_case(c: &Case, q: usize, b: usize) -> CaseOut {
@@ -1133,6 +1248,30 @@ pub fn run(tier: Tier) -> ! {
             }
         },
     );
+    // one upstream client shared by two downstream connections of the proxy (ids collide)
+    let mut shared_cases = 0u64;
+    let mut shared_checked = 0u64;
+    let mut shared_viol: Vec<(String, String, Value)> = Vec::new();
+    let mut shared_mach: Vec<String> = Vec::new();
+    for (limit, q) in proxy_shared_cases(tier) {
+        let o = run_proxy_shared(limit, q);
+        shared_cases += 1;
+        shared_checked += o.checked;
+        if let Some(m) = &o.machinery {
+            shared_mach.push(format!("proxy-shared limit {limit} query {q}: {m}"));
+        }
+        if !o.viol.is_empty() {
+            let again = run_proxy_shared(limit, q);
+            let k1: BTreeSet<&String> = o.viol.iter().map(|v| &v.0).collect();
+            let k2: BTreeSet<&String> = again.viol.iter().map(|v| &v.0).collect();
+            if k1 != k2 {
+                shared_mach.push(format!("nondeterministic verdict on proxy-shared limit {limit} query {q}: {k1:?} then {k2:?}"));
+            }
+            for (k, w) in o.viol {
+                shared_viol.push((k.replace("C17:proxy-response:", "C17:proxy-shared-upstream:"), format!("{w} [two downstream connections share one upstream client; B re-uses A's in-flight request id with a {q}-byte query]"), json!({"block": "proxy-shared", "limit": limit, "query_len": q})));
+            }
+        }
+    }
     drop(gag);
     std::panic::set_hook(prev_hook);
 
@@ -1176,6 +1315,15 @@ pub fn run(tier: Tier) -> ! {
     }
     // non-vacuity: every path delivered something, refused something, and met both
     // sides of the boundary
+    for m in &shared_mach {
+        ctx.machinery(m.clone());
+    }
+    for (k, w, case) in &shared_viol {
+        ctx.violation(k.clone(), w.clone(), case.clone());
+    }
+    if !ctx.has_violation() && shared_checked == 0 {
+        ctx.machinery("vacuous exploration: the shared-upstream proxy block saw no message");
+    }
     let mut per_path = serde_json::Map::new();
     for p in PATHS {
         let g = |cl: Class| all.classes.get(&(p, cl)).copied().unwrap_or(0);
@@ -1219,6 +1367,7 @@ pub fn run(tier: Tier) -> ! {
         "samples": samples.take(),
         "exhaustive": true,
         "cases_enumerated": cases.len(),
+        "proxy_with_one_upstream_client_shared_by_two_downstream_connections": {"cases": shared_cases, "messages_checked": shared_checked, "rule": "connection A has request id 1 in flight upstream; connection B forwards a request with the same id and a query of 8, limit-200, limit-122, limit-121, limit-100, limit-52, limit-51, limit-48, limit, 2*limit bytes (limits 1 KiB, 4 KiB, 64 KiB [1 MiB]): no message larger than the limit reaches either downstream peer, A's answer arrives unchanged, nothing panics"},
         "rule": "cross product limit x total size x placement of the variable part x outbound path; each case runs the real endpoint over an in-memory transport on a paused single-threaded runtime, followed by a small echo on the same connection; states = distinct (limit, path, query length, body length) realised (the 48-byte class collapses the three placements), transitions = binary messages seen by the raw peer + local call results + on_error events checked",
         "bound": {
             "limits": limits,
@@ -1246,6 +1395,14 @@ pub fn run(tier: Tier) -> ! {
 }
 
 pub fn replay(case: &Value) -> Result<(), String> {
+    if case["block"].as_str() == Some("proxy-shared") {
+        let _gag = StderrGag::new();
+        let o = run_proxy_shared(case["limit"].as_u64().ok_or("limit")? as usize, case["query_len"].as_u64().ok_or("query_len")? as usize);
+        if let Some(m) = o.machinery {
+            return Err(format!("machinery: {m}"));
+        }
+        return if o.viol.is_empty() { Ok(()) } else { Err(o.viol.iter().map(|(k, w)| format!("{k}: {w}")).collect::<Vec<_>>().join("\n")) };
+    }
     let c = Case::from_json(case).ok_or("case needs limit, size, place, path")?;
     let _gag = StderrGag::new();
     let o = run_case(&c);
